@@ -333,8 +333,9 @@ def run(tier):
     rep = Report(PID, tier, 'model_checking')
     tot_exec = tot_points = 0
     multi = 0
+    only = os.environ.get('VERIF_C16_ONLY')          # debugging aid: run the scenarios whose name contains this text
     for idx, sd in enumerate(scenarios()):
-        if tier not in sd['tiers']:
+        if tier not in sd['tiers'] or (only and only not in sd['name']):
             continue
         r = run_scenario(idx, sd, tier, rep)
         if not r:
